@@ -256,7 +256,7 @@ cpputest_longlong MockNamedValue::getLongLongIntValue() const
         return (long long int)value_.unsignedIntValue_;
     else if(type_ == "long int")
         return value_.longIntValue_;
-    else if(type_ == "unsigned long int")
+    else if(type_ == "unsigned long int" && (unsigned long long int)value_.unsignedLongIntValue_ <= ((unsigned long long int)-1) / 2)
         return (long long int)value_.unsignedLongIntValue_;
     else
     {
